@@ -8,9 +8,11 @@ import (
 	"fmt"
 	"regexp"
 	"runtime"
+	"net"
 	"sort"
 	"strconv"
 	"strings"
+	"sync"
 	"testing"
 	"time"
 
@@ -20,6 +22,7 @@ import (
 	"tunnox-core/internal/cloud/services"
 	"tunnox-core/internal/command"
 	"tunnox-core/internal/constants"
+	"tunnox-core/internal/core/storage/memory"
 	"tunnox-core/internal/core/types"
 	"tunnox-core/internal/packet"
 	"tunnox-core/internal/protocol/session"
@@ -92,6 +95,11 @@ type c11World struct {
 	mapObj map[string]string // mapping id -> object name
 	MH, MG *models.PortMapping // history world: migrated (L -> L2) and deleted mapping
 	M0     *models.PortMapping // server-listened mapping (ListenClientID 0, HTTP), target V2
+	nb     *miniNode           // second node (two-node world), else nil
+	gate   *c11GateStore
+	bridge *c11Bridge
+	closers []func()
+	execMax time.Duration // watchdog of exec (0 = 12 s)
 	query  interface {
 		QueryByPrefix(string, int) (map[string]string, error)
 	}
@@ -105,6 +113,8 @@ type c11State struct {
 	// (SeqKind: p1 = phase-1 only, badhmac = phase-1 + wrong answer, p1-tunnel = phase-1 as tunnel type)
 	// naming client SeqName ("" = an id no client has) on the same connection
 	SeqReq, SeqKind, SeqName string
+	TwoNode                  bool // V2 is connected to a second node (shared store, cross-node listener/pool, recording bridge manager)
+	Gate                     bool // the store is wrapped by a read gate (concurrent-requesters monitor)
 	Hist                     bool // object/connection history: a migrated mapping with its ex-listener L, a deleted mapping, and
 	// U2 = the first connection opened after an authenticated client W disconnected (phase-1 + failed phase-2 only)
 }
@@ -205,8 +215,50 @@ func c11NewWorldState(t testing.TB, run *vk.Run, extra func(w *c11World), st c11
 	c11WorldSeq++
 	bf := &security.BruteForceConfig{MaxFailures: 100000, TimeWindow: time.Hour, BanDuration: time.Hour, PermanentBanAt: 10000000, CleanupInterval: time.Hour}
 	rl := &security.RateLimitConfig{Rate: 1000000, Burst: 1000000, TTL: time.Hour}
-	n := newMiniNode(t, miniOpts{BruteForce: bf, RateLimit: rl})
-	w := &c11World{t: t, run: run, n: n, cl: map[string]*miniClient{}, id: map[string]int64{}, secret: map[string]string{},
+	opts := miniOpts{BruteForce: bf, RateLimit: rl}
+	var gate *c11GateStore
+	var closers []func()
+	if st.Gate || st.TwoNode {
+		bg, cancel := context.WithCancel(context.Background())
+		closers = append(closers, cancel)
+		gate = &c11GateStore{Storage: memory.New(bg)}
+		opts.Store = gate
+	}
+	n := newMiniNode(t, opts)
+	var nb *miniNode
+	var bridge *c11Bridge
+	if st.TwoNode {
+		opts.NodeID = "node-b"
+		nb = newMiniNode(t, opts)
+		var started bool
+		for try := 0; try < 8 && !started; try++ {
+			l, err := net.Listen("tcp", "127.0.0.1:0")
+			if err != nil {
+				continue
+			}
+			port := l.Addr().(*net.TCPAddr).Port
+			l.Close()
+			cl := session.NewCrossNodeListener(nb.SM, port)
+			if err := cl.Start(nb.ctx); err != nil {
+				continue
+			}
+			nb.SM.SetCrossNodeListener(cl)
+			closers = append(closers, func() { cl.Stop() })
+			if err := gate.Set("tunnox:node:node-b:addr", fmt.Sprintf("127.0.0.1:%d", port), 0); err != nil {
+				t.Fatalf("c11: publish node-b address: %v", err)
+			}
+			started = true
+		}
+		if !started {
+			t.Fatalf("c11: cross-node listener did not start")
+		}
+		pool := session.NewCrossNodePool(n.ctx, gate, n.NodeID, session.DefaultCrossNodePoolConfig())
+		n.SM.SetCrossNodePool(pool)
+		closers = append(closers, func() { pool.Close() })
+		bridge = &c11Bridge{}
+		n.SM.SetBridgeManager(bridge)
+	}
+	w := &c11World{t: t, run: run, n: n, nb: nb, gate: gate, bridge: bridge, closers: closers, cl: map[string]*miniClient{}, id: map[string]int64{}, secret: map[string]string{},
 		obj: map[string]*c11Obj{}, D: map[string]*repos.HTTPDomainMapping{}, born: time.Now()}
 	q, ok := n.Store.(interface {
 		QueryByPrefix(string, int) (map[string]string, error)
@@ -225,7 +277,11 @@ func c11NewWorldState(t testing.TB, run *vk.Run, extra func(w *c11World), st c11
 		first = append(first, "L", "L2", "W")
 	}
 	for _, role := range first {
-		c := n.NewClient("")
+		home := n
+		if role == "V2" && nb != nil {
+			home = nb // the victim on the target side lives on the other node
+		}
+		c := home.NewClient("")
 		w.cl[role] = c
 		w.id[role] = c.ClientID
 		w.secret[role] = c.Secret
@@ -429,7 +485,78 @@ func c11NewWorldState(t testing.TB, run *vk.Run, extra func(w *c11World), st c11
 	return w
 }
 
-func (w *c11World) close() { w.n.Close() }
+func (w *c11World) close() {
+	w.n.Close()
+	if w.nb != nil {
+		w.nb.Close()
+	}
+	for i := len(w.closers) - 1; i >= 0; i-- {
+		w.closers[i]()
+	}
+}
+
+// sm returns the session manager of the node a role's connection is attached to.
+func (w *c11World) sm(role string) *session.SessionManager { return w.cl[role].n.SM }
+
+// c11GateStore wraps the memory store; every read first passes the hook (if armed).
+type c11GateStore struct {
+	*memory.Storage
+	mu   sync.Mutex
+	hook func(op, key string)
+}
+
+func (g *c11GateStore) pass(op, key string) {
+	g.mu.Lock()
+	h := g.hook
+	g.mu.Unlock()
+	if h != nil {
+		h(op, key)
+	}
+}
+func (g *c11GateStore) setHook(h func(op, key string)) { g.mu.Lock(); g.hook = h; g.mu.Unlock() }
+func (g *c11GateStore) Get(key string) (any, error)    { g.pass("Get", key); return g.Storage.Get(key) }
+func (g *c11GateStore) GetList(key string) ([]any, error) {
+	g.pass("GetList", key)
+	return g.Storage.GetList(key)
+}
+func (g *c11GateStore) GetHash(key, field string) (any, error) {
+	g.pass("GetHash", key)
+	return g.Storage.GetHash(key, field)
+}
+func (g *c11GateStore) GetAllHash(key string) (map[string]any, error) {
+	g.pass("GetAllHash", key)
+	return g.Storage.GetAllHash(key)
+}
+func (g *c11GateStore) Exists(key string) (bool, error) { g.pass("Exists", key); return g.Storage.Exists(key) }
+
+// c11Bridge records what node A would broadcast to other nodes.
+type c11Bridge struct {
+	mu    sync.Mutex
+	calls []map[string]any
+}
+
+func (b *c11Bridge) BroadcastTunnelOpen(req *packet.TunnelOpenRequest, target int64) error {
+	b.mu.Lock()
+	b.calls = append(b.calls, map[string]any{"target_client_id": target, "request": *req})
+	b.mu.Unlock()
+	return nil
+}
+func (b *c11Bridge) take() []map[string]any {
+	b.mu.Lock()
+	defer b.mu.Unlock()
+	c := b.calls
+	b.calls = nil
+	return c
+}
+func (b *c11Bridge) Subscribe(ctx context.Context, topic string) (<-chan *session.BroadcastMessage, error) {
+	return make(chan *session.BroadcastMessage), nil
+}
+func (b *c11Bridge) PublishMessage(ctx context.Context, topic string, payload []byte) error { return nil }
+func (b *c11Bridge) GetNodeID() string                                                       { return "node-a" }
+func (b *c11Bridge) NotifyTunnelReady(ctx context.Context, tunnelID, src string) error       { return nil }
+func (b *c11Bridge) WaitForTunnelReady(ctx context.Context, tunnelID string) (string, error) {
+	return "", fmt.Errorf("c11: not used")
+}
 
 // applySeq: an authenticated requester claims another identity with a handshake that
 // never completes. Nothing was proven, so nothing may change: the connection stays the
@@ -485,7 +612,7 @@ func (w *c11World) applySeq(st c11State) {
 			}
 		}
 	}
-	if k := w.n.SM.GetControlConnection(c.ConnID); k == nil || !k.IsAuthenticated() || k.GetClientID() != w.id[st.SeqReq] {
+	if k := w.sm(st.SeqReq).GetControlConnection(c.ConnID); k == nil || !k.IsAuthenticated() || k.GetClientID() != w.id[st.SeqReq] {
 		got := int64(-1)
 		if k != nil {
 			got = k.GetClientID()
@@ -493,7 +620,7 @@ func (w *c11World) applySeq(st c11State) {
 		viol("identity", map[string]any{"connection_now_client": got, "proven_client": w.id[st.SeqReq]})
 	}
 	for role := range w.auth {
-		k := w.n.SM.GetControlConnectionByClientID(w.id[role])
+		k := w.sm(role).GetControlConnectionByClientID(w.id[role])
 		if k == nil || k.GetConnID() != w.cl[role].ConnID {
 			viol("index", map[string]any{"lookup_of": role, "leads_to_requester_connection": k != nil && k.GetConnID() == c.ConnID})
 		}
@@ -524,7 +651,7 @@ func (w *c11World) identities() map[string]c11Ident {
 	out := map[string]c11Ident{}
 	for _, role := range w.roles {
 		c := w.cl[role]
-		k := w.n.SM.GetControlConnection(c.ConnID)
+		k := w.sm(role).GetControlConnection(c.ConnID)
 		i := c11Ident{Closed: c.ServerClosedTransport()}
 		if k != nil {
 			i.Registered = true
@@ -588,6 +715,7 @@ type c11Outcome struct {
 	IdentChg []string            `json:"ident_changes,omitempty"`
 	Watchdog bool                `json:"watchdog,omitempty"`
 	Answered int                 `json:"auto_answered,omitempty"`
+	Broadcasts []map[string]any  `json:"cross_node_broadcasts,omitempty"`
 	Success  bool                `json:"-"`
 	HasResp  bool                `json:"-"`
 	dirty    bool
@@ -1027,7 +1155,11 @@ func (w *c11World) exec(cs c11Case, seq int, settle bool) *c11Outcome {
 			done <- ""
 		}
 	}()
-	deadline := time.Now().Add(12 * time.Second)
+	max := w.execMax
+	if max == 0 {
+		max = 12 * time.Second
+	}
+	deadline := time.Now().Add(max)
 	finished := false
 	for !finished {
 		select {
@@ -1050,7 +1182,7 @@ func (w *c11World) exec(cs c11Case, seq int, settle bool) *c11Outcome {
 		}
 		time.Sleep(2 * time.Millisecond)
 	}
-	if cs.CT == byte(packet.ConnectionCodeList) {
+	if cs.CT == byte(packet.ConnectionCodeList) && w.execMax == 0 {
 		// the owner's list call garbage-collects its expired codes on a goroutine of its own
 		// (conncode.ListConnectionCodesByTargetClient); let it finish inside this case
 		if !c11WaitNoGoroutine([]string{"ListConnectionCodesByTargetClient"}, 10*time.Second) {
@@ -1061,6 +1193,9 @@ func (w *c11World) exec(cs c11Case, seq int, settle bool) *c11Outcome {
 	runtime.Gosched()
 	w.pump(out, cs.Req)
 
+	if w.bridge != nil {
+		out.Broadcasts = w.bridge.take()
+	}
 	after := w.dump()
 	out.Changes = w.diff(after)
 	w.snap = after
@@ -1265,6 +1400,36 @@ func (w *c11World) judge(cs c11Case, cmd *packet.CommandPacket, out *c11Outcome)
 			}
 		}
 	}
+	// (3b) what node A hands to the bridge manager for other nodes
+	for _, bc := range out.Broadcasts {
+		run.Count("cross_node_broadcasts", 1)
+		named := ""
+		var b struct {
+			MappingID string `json:"mapping_id"`
+		}
+		if json.Unmarshal([]byte(cmd.CommandBody), &b) == nil {
+			named = w.mapObj[b.MappingID]
+		}
+		tgt, _ := bc["target_client_id"].(int64)
+		tgtParty := false
+		if named != "" {
+			for r := range w.obj[named].Parties {
+				if w.id[r] == tgt {
+					tgtParty = true
+				}
+			}
+		}
+		switch {
+		case !w.authed(cs.Req):
+			run.Violation(fmt.Sprintf("C11:deliver|cmd=%s|requester=unauth|via=bridge", name), detail(map[string]any{"broadcast": bc}))
+		case named == "" || !w.party(w.obj[named], cs.Req):
+			run.Violation(fmt.Sprintf("C11:deliver|cmd=%s|requester=stranger|via=bridge", name), detail(map[string]any{"broadcast": bc}))
+		case !tgtParty:
+			run.Violation(fmt.Sprintf("C11:deliver|cmd=%s|requester=party|recipient=non-party|via=bridge", name), detail(map[string]any{"broadcast": bc}))
+		default:
+			run.Count("cross_node_broadcasts_between_parties", 1)
+		}
+	}
 	// (4) registry
 	for _, chg := range out.IdentChg {
 		role := chg[:strings.Index(chg, ":")]
@@ -1283,7 +1448,7 @@ func (w *c11World) judge(cs c11Case, cmd *packet.CommandPacket, out *c11Outcome)
 		run.Violation(fmt.Sprintf("C11:connection-state|cmd=%s|requester=%s", name, cls), detail(map[string]any{"change": chg}))
 	}
 	for role := range w.auth {
-		k := w.n.SM.GetControlConnectionByClientID(w.id[role])
+		k := w.sm(role).GetControlConnectionByClientID(w.id[role])
 		want := w.cl[role].ConnID
 		if w.ident[role].Closed || !w.ident[role].Registered {
 			continue
@@ -1296,7 +1461,7 @@ func (w *c11World) judge(cs c11Case, cmd *packet.CommandPacket, out *c11Outcome)
 
 func (w *c11World) describe() map[string]any {
 	return map[string]any{"ids": w.id, "M": w.M.ID, "MS": w.MS.ID, "K": w.K.Code, "KS": w.KS.Code,
-		"M0(server-listened, ListenClientID=0, target V2)": w.M0.ID, "D1": w.D["D1"].ID, "D2": w.D["D2"].ID, "DS": w.D["DS"].ID, "mark": w.mark, "mapping_state": w.state.Map, "code_state": w.state.Code, "history_world": w.state.Hist, "sequence": fmt.Sprintf("%s/%s/%s", w.state.SeqReq, w.state.SeqKind, w.state.SeqName),
+		"M0(server-listened, ListenClientID=0, target V2)": w.M0.ID, "D1": w.D["D1"].ID, "D2": w.D["D2"].ID, "DS": w.D["DS"].ID, "mark": w.mark, "mapping_state": w.state.Map, "code_state": w.state.Code, "history_world": w.state.Hist, "two_nodes(V2 on node-b)": w.state.TwoNode, "sequence": fmt.Sprintf("%s/%s/%s", w.state.SeqReq, w.state.SeqKind, w.state.SeqName),
 		"history_roles": "L=ex-listener of MH (migrated to L2 by MigrateClientMappings); MG=deleted mapping; W=authenticated owner of MW, disconnected; U2=first connection after W left, phase-1 for V1 + failed phase-2",
 		"roles": "U0=no handshake; U1=phase-1 for V1 only; V1=listen side of M; V2=target side of M, owner of K; S=unrelated, owns MS/KS/DS"}
 }
@@ -1349,7 +1514,7 @@ func (w *c11World) fingerprint(cs c11Case, cmd *packet.CommandPacket, out *c11Ou
 		}
 	}
 	sort.Strings(dl)
-	parts = append(parts, "dlv="+strings.Join(dl, ","))
+	parts = append(parts, "dlv="+strings.Join(dl, ","), fmt.Sprintf("bc=%d", len(out.Broadcasts)))
 	var ic []string
 	for _, c := range out.IdentChg {
 		ic = append(ic, c[:strings.Index(c, ":")])
@@ -1449,6 +1614,9 @@ func (d *c11Driver) observeSpecial(cs c11Case, out *c11Outcome) {
 		if cs.Req == "V1" && cs.Kind == "aimA" && len(out.Others["V2"]) > 0 {
 			d.run.Count("party_socks5_request_forwarded", 1)
 		}
+		if cs.Req == "V1" && cs.Kind == "aimA" && len(out.Broadcasts) > 0 {
+			d.run.Count("crossnode_party_socks5_broadcast", 1)
+		}
 	case packet.DNSResolve:
 		if cs.Req == "V1" && len(out.Others["V2"]) > 0 && len(out.Own) > 0 {
 			d.run.Count("party_dns_resolve_roundtrip", 1)
@@ -1456,6 +1624,9 @@ func (d *c11Driver) observeSpecial(cs c11Case, out *c11Outcome) {
 	case packet.DNSQuery:
 		if cs.Req == "V1" && len(out.Others["V2"]) > 0 && len(out.Own) > 0 {
 			d.run.Count("party_dns_query_roundtrip", 1)
+			if d.state.TwoNode && strings.Contains(out.Own[len(out.Own)-1].Body, "QUFBQQ") {
+				d.run.Count("crossnode_party_dns_query_answered", 1)
+			}
 		}
 	case packet.Disconnect:
 		if len(out.IdentChg) > 0 {
@@ -1659,6 +1830,19 @@ func TestVerifC11Table(t *testing.T) {
 		d.sweep(handled, []packet.Type{packet.JsonCommand}, []string{"ids"}, false)
 	}
 	d.reqs = nil
+	// two-node world: the target-side victim V2 is connected to node-b; requesters on node-a
+	if d.w != nil {
+		d.w.close()
+		d.w = nil
+	}
+	d.state = c11State{TwoNode: true}
+	d.suffix = "|nodes=2"
+	d.reqs = []string{"U0", "U1", "S", "V1"}
+	d.sweep(handled, []packet.Type{packet.JsonCommand}, []string{"ids"}, false)
+	d.reqs = nil
+	d.suffix = ""
+	run.Floor("crossnode_party_dns_query_answered", 1)
+	run.Floor("crossnode_party_socks5_broadcast", 1)
 	run.Floor("sequence_worlds_built", int64(len(seqs)))
 	run.Floor("sequence_vs_plain_pairs", 500)
 	if d.w != nil {
@@ -1748,6 +1932,210 @@ func TestVerifC11Unwired(t *testing.T) {
 	run.Floor("harness_registered_types", 9)
 	run.Floor("deliveries_to_others", 1)
 	run.Floor("metamorphic_pairs", 300)
+	if run.Counter("watchdog") > 0 {
+		run.Floor("watchdog_free", 1)
+	}
+}
+
+// TestVerifC11Concurrent: handlers are single objects shared by all connections and every
+// duplex command runs on its own goroutine. Requester A's read-type command is parked at its
+// k-th store read (for every k it performs) while requester B's command runs to completion;
+// then A continues. Each response must be what that requester gets when it is alone.
+func TestVerifC11Concurrent(t *testing.T) {
+	run := vk.Start(t, "C11", "concurrent")
+	defer run.Finish()
+	run.Rule("read-type command {MappingList (all / inbound / outbound), MappingGet own, ConnectionCodeList, ConfigGet, HTTPDomainList} of requester A in {V1,V2,S} parked at its k-th store read, for every k of its sequential run (quick: k <= 6), while the same or another read-type command of requester B != A runs to completion; distinct by (A cmd, A, B cmd, B, k); a window counts only if B completed while A was parked")
+	type rd struct {
+		name string
+		ct   packet.CommandType
+		body func(w *c11World, req string) string
+	}
+	own := func(w *c11World, req string) string {
+		if req == "S" {
+			return w.MS.ID
+		}
+		return w.M.ID
+	}
+	cmds := []rd{
+		{"MappingList", packet.MappingList, func(w *c11World, r string) string { return `{"direction":""}` }},
+		{"MappingList/inbound", packet.MappingList, func(w *c11World, r string) string { return `{"direction":"inbound"}` }},
+		{"MappingGet", packet.MappingGet, func(w *c11World, r string) string { return c11J(map[string]any{"mapping_id": own(w, r)}) }},
+		{"ConnectionCodeList", packet.ConnectionCodeList, func(w *c11World, r string) string { return "{}" }},
+		{"ConfigGet", packet.ConfigGet, func(w *c11World, r string) string { return "{}" }},
+		{"HTTPDomainList", packet.HTTPDomainList, func(w *c11World, r string) string { return "{}" }},
+	}
+	maxK := run.Pick(6, 40)
+	var w *c11World
+	fresh := func() {
+		if w != nil {
+			w.close()
+		}
+		w = c11NewWorldState(t, run, nil, c11State{Gate: true})
+	}
+	fresh()
+	defer func() { w.close() }()
+	seq := 0
+	mkCase := func(c rd, req string) c11Case {
+		return c11Case{CT: byte(c.ct), PT: packet.JsonCommand, Req: req, Kind: "own", Forge: "none", Body: c.body(w, req)}
+	}
+	for _, ca := range cmds {
+		for _, A := range []string{"V1", "V2", "S"} {
+			// sequential reference of A, counting its store reads
+			if time.Since(w.born) > 4*time.Second {
+				fresh()
+			}
+			reads := 0
+			w.gate.setHook(func(op, key string) { reads++ })
+			seq++
+			csA := mkCase(ca, A)
+			ref := w.exec(csA, seq, false)
+			w.gate.setHook(nil)
+			cmdRef := w.packetFor(csA, seq)
+			w.judge(csA, cmdRef, ref)
+			refFP := w.fingerprint(csA, cmdRef, ref)
+			run.Eval(1)
+			if ref.Watchdog || ref.dirty {
+				run.Count("reference_not_clean", 1)
+				fresh()
+				continue
+			}
+			run.Max("max_store_reads_of_a_command", int64(reads))
+			for bi, cb := range cmds {
+				if !run.Thorough() && bi != 0 && cb.name != ca.name {
+					continue // quick: B runs MappingList or the same command as A
+				}
+				for _, B := range []string{"V1", "V2", "S"} {
+					if B == A {
+						continue
+					}
+					seq++
+					if time.Since(w.born) > 4*time.Second {
+						fresh()
+					}
+					csB := mkCase(cb, B)
+					refB := w.exec(csB, seq, false)
+					refBFP := w.fingerprint(csB, w.packetFor(csB, seq), refB)
+					for k := 1; k <= reads && k <= maxK; k++ {
+						if time.Since(w.born) > 4*time.Second {
+							fresh() // connections without heartbeats are reaped after a while; keep worlds young
+						}
+						csA, csB := mkCase(ca, A), mkCase(cb, B)
+						parked, release := make(chan struct{}), make(chan struct{})
+						var once sync.Once
+						n := 0
+						armed := true
+						w.gate.setHook(func(op, key string) {
+							if !armed {
+								return
+							}
+							n++
+							if n == k {
+								armed = false
+								once.Do(func() { close(parked) })
+								select {
+								case <-release:
+								case <-time.After(20 * time.Second):
+								}
+							}
+						})
+						seq++
+						aSeq := seq
+						cmdA := w.packetFor(csA, aSeq)
+						run.Case(fmt.Sprintf("concurrent|%s|%s|%s|%s|k=%d", ca.name, A, cb.name, B, k), nil)
+						done := make(chan string, 1)
+						go func() {
+							if err := w.cl[A].Send(&packet.TransferPacket{PacketType: packet.JsonCommand, CommandPacket: cmdA}); err != nil {
+								done <- err.Error()
+							} else {
+								done <- ""
+							}
+						}()
+						window, blocked := false, false
+						var outB *c11Outcome
+						seq++
+						bSeq := seq
+						select {
+						case <-parked:
+							// A sits between two of its lookups; the gate lets everybody else through
+							// (if A is parked inside a critical section B also needs, B cannot finish before A
+							// continues: that is ordinary mutual exclusion, not a window — bounded wait, then skip)
+							w.execMax = 400 * time.Millisecond
+							outB = w.exec(csB, bSeq, false)
+							w.execMax = 0
+							window = !outB.Watchdog
+							if !window {
+								blocked = true
+							}
+						case e := <-done:
+							done <- e // A finished without reaching its k-th read
+						case <-time.After(15 * time.Second):
+							run.Count("watchdog", 1)
+						}
+						close(release)
+						outA := &c11Outcome{}
+						select {
+						case outA.SendErr = <-done:
+						case <-time.After(15 * time.Second):
+							run.Count("watchdog", 1)
+							outA.Watchdog = true
+						}
+						w.gate.setHook(nil)
+						w.pump(outA, A)
+						runtime.Gosched()
+						w.pump(outA, A)
+						after := w.dump()
+						outA.Changes = w.diff(after)
+						w.snap = after
+						run.Eval(1)
+						if outA.Watchdog {
+							fresh()
+							break
+						}
+						if blocked {
+							// B is still finishing; let it, then discard what both wrote
+							run.Count("windows_b_blocked_behind_a", 1)
+							if !c11WaitNoGoroutine([]string{"executeDuplex"}, 10*time.Second) {
+								run.Count("watchdog", 1)
+							}
+							for _, role := range w.roles {
+								w.cl[role].DrainRaw()
+							}
+							w.snap = w.dump()
+							w.ident = w.identities()
+							continue
+						}
+						if !window {
+							run.Count("windows_not_reached", 1)
+							continue
+						}
+						run.Count("windows_b_completed_while_a_parked", 1)
+						run.Distinct(fmt.Sprintf("%s/%s/%s/%s/%d", ca.name, A, cb.name, B, k))
+						w.judge(csA, cmdA, outA)
+						cmdB := w.packetFor(csB, bSeq)
+						w.judge(csB, cmdB, outB)
+						fa, fb := w.fingerprint(csA, cmdA, outA), w.fingerprint(csB, cmdB, outB)
+						if fa != refFP {
+							run.Violation(fmt.Sprintf("C11:concurrent-requesters|cmd=%s|response-differs-from-sequential", ca.name), map[string]any{"world": w.describe(),
+								"parked": map[string]any{"requester": A, "command": ca.name, "body": csA.Body, "at_store_read": k}, "ran_meanwhile": map[string]any{"requester": B, "command": cb.name, "body": csB.Body},
+								"sequential": refFP, "concurrent": fa, "outcome": outA})
+						}
+						if fb != refBFP {
+							run.Violation(fmt.Sprintf("C11:concurrent-requesters|cmd=%s|response-differs-from-sequential", cb.name), map[string]any{"world": w.describe(),
+								"parked": map[string]any{"requester": A, "command": ca.name, "at_store_read": k}, "ran_meanwhile": map[string]any{"requester": B, "command": cb.name},
+								"sequential": refBFP, "concurrent": fb, "outcome": outB})
+						}
+						if len(outA.Changes) > 0 || outB.dirty {
+							fresh()
+						}
+						if run.Violations() > 20 {
+							return
+						}
+					}
+				}
+			}
+		}
+	}
+	run.Floor("windows_b_completed_while_a_parked", 60)
 	if run.Counter("watchdog") > 0 {
 		run.Floor("watchdog_free", 1)
 	}
